@@ -208,7 +208,7 @@ func unwrapIface(v ssa.Value) ssa.Value {
 }
 
 func propC14(w *World, r *Report) {
-	r.Explanation = "Decided clause: (M1) the 'clear' marker constant compared by the recorder is byte-identical to the one the camera daemon writes; (M2) the probe is io.ReadFull of exactly len(marker) bytes into the head of the frame buffer, the remainder is read by a second io.ReadFull from that same offset to the end, the buffer has FrameSize() bytes, and on the marker edge the loop resets the processor and continues without a second read or a frame; (M3) one bufio.Reader wraps the connection and is the only reader used for header and frames; all socket reads are ReadFull/ReadString (segmentation-proof by their contracts); (M4) ReadHeaderInfo returns the read error (truncation => error), leaves its loop only at the first blank line, reads only through ReadString, and returns the YAML error; (M5) the key set written by leptond's camera-spec map equals the key set read by ReadHeaderInfo, and for each key the writer's static type is decodable to the reader's asserted type; (M6) leptond announces lepton3.BytesPerFrame as FrameSize, writes whole raw frames of that length, and writes the marker only between frame loops. Rule: cross-binary constant/key-set agreement + guard/dominator analysis of the frame loop."
+	r.Explanation = "Decided clause: (M1) the 'clear' marker constant compared by the recorder is byte-identical to the one the camera daemon writes; (M2) the probe is io.ReadFull of exactly len(marker) bytes into the head of the frame buffer, the remainder is read by a second io.ReadFull from that same offset to the end, the buffer has FrameSize() bytes, and on the marker edge the loop resets the processor and continues without a second read or a frame; (M3) one bufio.Reader wraps the connection and is the only reader used for header and frames; all socket reads are ReadFull/ReadString (segmentation-proof by their contracts); (M4) ReadHeaderInfo returns the read error (truncation => error), leaves its loop only at the first blank line (on the edge where the trimmed line equals it), reads only through ReadString, and returns the YAML error on its non-nil edge; (M5) the key set written by leptond's camera-spec map equals the key set read by ReadHeaderInfo, for each key the writer's static type is decodable to the reader's asserted type, and the accessors return the asserted value exactly when the assertion succeeded; (M6) leptond announces lepton3.BytesPerFrame as FrameSize, writes whole raw frames of that length, and writes the marker only between frame loops. Rule: cross-binary constant/key-set agreement + guard/dominator analysis of the frame loop."
 	r.RuleText = "obligation per (rule, construct / header key)"
 	r.Assumptions = []string{"io.ReadFull / bufio.Reader.ReadString contracts (standard library): they return exactly the requested bytes / up to the delimiter regardless of read segmentation",
 		"YAML encoder/decoder round-trip of arbitrary strings is a dependency and not decided", "thermal-writer reads the same socket but ignores the marker (sibling cross-check note, not part of the statement)"}
